@@ -366,7 +366,11 @@ def run(ctx):
             st = [(bb, t) for bb, t in b.calls() if t["call"]["name"] == setter]
             good = False
             if len(st) == 1:
-                gs = {b.blocks[s[1]]["t"]["call"]["name"] for s in tr.sources(st[0][1]["args"][1]) if s[0] == "call" and b.blocks[s[1]]["t"]["call"].get("trait") == ERRTYPE}
+                def base_(s_):
+                    while s_[0] == "field":
+                        s_ = s_[1]
+                    return s_
+                gs = {b.blocks[s[1]]["t"]["call"]["name"] for s in map(base_, tr.sources(st[0][1]["args"][1])) if s[0] == "call" and b.blocks[s[1]]["t"]["call"].get("trait") == ERRTYPE}
                 good = gs == {getter}
             ctx.check(good, "R17.4", b.loc(), f"encode|{setter}", f"encode: builder.{setter} must receive error.{getter}()", instance=f"{setter} <- ErrorType::{getter}")
         ins = [(bb, t) for bb, t in b.calls() if t["call"]["name"] == "insert_parameters"]
@@ -387,6 +391,9 @@ def run(ctx):
             if len(prod) == 1 and len(cons) == 1 and prod[0][0].kind == "closure" and cons[0][0].kind == "closure":
                 px, pbb, pt = prod[0]
                 cx, cbb, ct_ = cons[0]
+                # the producer closure with its own combinators (`.ok()`, `zip`, `map`) written out
+                px = _inline.expand(ce, px, depth=1, pred=lambda cb: cb.d.get("vis") != "pub", lower=True)
+                pbb, pt = [(bb_, t_) for bb_, t_ in px.calls() if t_["call"]["def"] == "serde_core::de::DeserializeSeed::deserialize"][0]
                 pcfg = CFG(px)
                 pvt = Tracer(px, through_agg=True, transparent=set(dt.value_tracer(px).transparent) | {"core::result::Result::<T, E>::ok"})
                 somes = [o for o in dt.ok_return_blocks(px) if o[2]["r"].get("variant") == "Some"]
@@ -570,6 +577,9 @@ def run(ctx):
                 ctx.note(f"R17.8 {fn['name']}: the value interpolated into name() (`{var}`) is not a local let-binding; instances decided by R17.6")
                 continue
             conv = [x for x in ("type_name(", "field_name(", "_case(", "to_lowercase(", "to_uppercase(", "to_ascii_") if x in flat_]
+            if not conv and not ("namespace()" in flat_ and "error_name()" in flat_):
+                ctx.note(f"R17.8 {fn['name']}: the value interpolated into name() (`{var}` = `{fn['lets'][var][:60]}`) is computed by a helper this rule does not look into; instances decided by R17.6")
+                continue
             ctx.check(not conv and "namespace()" in flat_ and "error_name()" in flat_, "R17.8", f"{fn['file']}:{q['line']}", f"{fn['name']}|error-name-verbatim",
                       f"{fn['name']}: name() returns `{var}` = `{fn['lets'][var][:80]}`, which is computed through {conv or 'something other than namespace() and error_name()'}: the wire name of an error must be its declared Namespace:Name, not the Rust identifier",
                       instance=f"{fn['name']}: name() = format!(\"{{}}:{{}}\", namespace(), error_name().name())")
